@@ -14,6 +14,7 @@ Decided (DESIGN.md C40):
      hidden entries ignored.
  K1  of the DelayedAction variants only UnixPwUpgrade is constructed in a body reachable from do_op (and only after the
      password verified).
+ K4-application-cache-rebuilt  LdapApplicationsWriteTransaction::reload installs the freshly parsed set wholesale (lib/x_cache.py).
 Not decided: equality with native search results (same code path, C23), what process_unixpwupgrade writes.
 """
 import re
